@@ -93,7 +93,7 @@ def fam(handler, op1="append", op2="append", op4="none", att=(2, 2, 1), r3=0, r5
     d = dict(handler=handler, op1=op1, op2=op2, op4=op4, att1=att[0], att2=att[1], att4=att[2], r3=r3, r5=r5,
              fail=fail, lost=lost, crash=crash, v2=v2, init=init, dev=tuple(dev))
     d["name"] = name or f"{handler}-{op1}-{op2}" + (f"-{op4}" if op4 != "none" else "") + \
-        (f"-r{r3}" if r3 not in (0,) else "") + ("-v2" if v2 else "") + (f"-{init}" if init != "table" else "") + \
+        (f"-r{r3}" if r3 not in (0,) else "") + (f"-q{r5}" if r5 != 99 else "") + ("-v2" if v2 else "") + (f"-{init}" if init != "table" else "") + \
         f"-f{fail}l{lost}c{crash}" + ("-" + "+".join(dev) if dev else "")
     return d
 
@@ -221,7 +221,7 @@ def _sample(scs, cap, rnd):
     return head + tail[: cap - len(head)]
 
 
-def run_check(prop, tier, replay, families, teeth=(), cap_quick=60, cap_thorough=400, sim_thorough=200,
+def run_check(prop, tier, replay, families, teeth=(), cap_quick=60, cap_thorough=100, sim_thorough=60,
               expect_pcs=(), extra_assumptions=(), expect_counts=()):
     """families: list of fam() dicts (with optional key 'asbuilt': deviations to generate/validate with).
     teeth: list of (fam, invariant) model runs that are EXPECTED to violate `invariant` (sanity of the invariants
@@ -248,7 +248,7 @@ def run_check(prop, tier, replay, families, teeth=(), cap_quick=60, cap_thorough
         asb = tuple(f.get("asbuilt", AS_BUILT if f["handler"] == "external" else ()))
         fa = dict(f)
         fa["dev"] = asb
-        tmo = 1500 if quick else 3000
+        tmo = 1500 if quick else 2400
         # "ExtGetErrorDeletesStaging" only changes behaviour when a call can fail: without a fail budget the
         # as-built model and the intended design are the same state machine
         same_model = (not asb) or (set(asb) <= {"ExtGetErrorDeletesStaging"} and f["fail"] == 0)
@@ -270,7 +270,7 @@ def run_check(prop, tier, replay, families, teeth=(), cap_quick=60, cap_thorough
             scs, st = generate(prop, fa, timeout=tmo)
         sims = []
         if not quick and sim_thorough:
-            sims, _ = simulate(prop, fa, sim_thorough, timeout=3000)
+            sims, _ = simulate(prop, fa, sim_thorough, timeout=1200)
         return f, asb, r, scs, sims, st
 
     stage = {"build_s": build_s}
@@ -338,7 +338,7 @@ def run_check(prop, tier, replay, families, teeth=(), cap_quick=60, cap_thorough
 
     def run_shard(i_shard):
         i, (dev, part) = i_shard
-        rep, tf, sf, tm = replay_and_validate(prop, binary, f"s{i}", part, dev=dev, timeout=1500 if quick else 6000)
+        rep, tf, sf, tm = replay_and_validate(prop, binary, f"s{i}", part, dev=dev, timeout=1500 if quick else 3000)
         return i, dev, part, rep, tf, tm
     t1 = time.time()
     with cf.ThreadPoolExecutor(max_workers=6) as ex:
